@@ -8,7 +8,7 @@ from .. import qlang
 ID = "C11"
 LEVEL = "exploration"
 ANCHOR_FILES = ["aw_query/query2.py", "aw_query/functions.py"]
-REQUIRED_COUNTERS = ["programs_evaluated", "registry_calls_recorded", "printings_compared"]
+REQUIRED_COUNTERS = ["programs_evaluated", "registry_calls_recorded", "printings_compared", "calls_whose_arguments_were_compared"]
 RULE = ("programs generated as typed ASTs (every built-in of the registry, the identity built-ins vp0..vp3 registered "
         "through the registry's decorator so that any literal can sit at any argument position, nested "
         "calls/lists/dicts as first/middle/last argument, 0-3 arguments, 1-9 statements with rebinding through "
@@ -21,7 +21,11 @@ RULE = ("programs generated as typed ASTs (every built-in of the registry, the i
         "kind), statement-count class, string features)")
 ASSUMPTIONS = ["strings contain no ';' and do not end in a backslash (the language cannot express those)",
                "dict literals have distinct keys",
-               "when the reference evaluation raises inside a built-in the implementation must raise too (class not compared)"]
+               "when the reference evaluation raises inside a built-in the implementation must raise too (class not compared)",
+               "'a variable evaluates to its most recent assignment' is also held against the built-ins: a call must leave the values it "
+               "is given as they were (compared at the registry before and after every call), except categorize / tag / split_url_events, "
+               "which annotate the caller's events in place, and period_union, which clears the data of the input events it returns "
+               "unmerged - behaviour of the unchanged tree that C12's quantifier acknowledges ('programs that annotate, clear or re-time events in place')"]
 
 _S = {}
 
@@ -44,6 +48,7 @@ def _ensure(ctx, data_key):
 
 
 def teardown(ctx):
+    ctx.count("calls_whose_arguments_were_compared", _S["reg"].calls_compared)
     _S["reg"].restore()
 
 
@@ -87,6 +92,9 @@ def run_case(case, ctx):
         out = outcome(lambda: aw_query.query("q", text, start, end, ds))
         trace = list(reg.trace)
         outs.append((out, trace))
+        for (fname, before, after) in reg.arg_effects[:1]:
+            # a variable bound to that value no longer evaluates to what was assigned to it
+            viols.append(("built-in-changed-the-values-it-was-given", f"{fname}: before={canon(before)[:250]} after={canon(after)[:250]} :: text={text!r:.400}"))
         ctx.count("programs_evaluated")
         ctx.count("registry_calls_recorded", len(trace))
         if ref[0] == "value":
